@@ -21,6 +21,7 @@ structure Pf where
   item : Nat
   ver : Nat
   priv : Bool   -- from the private store p1
+  ics : Bool    -- ICS-23 proof ops from the commitment state q1 (cosmos)
 
 inductive Cm where
   | tm (c : Commit Nat String String)
@@ -177,7 +178,7 @@ def parseHdr (rt : Rt) (tracked : Option String) (toks : List String) : Option (
       if ver ≥ 4294967296 then none else
       match hashDesc rt vh vals ver, hashDesc rt nvh vals ver with
       | some vhId, some nvhId =>
-        if !(app == "e" || app.startsWith "x" || app == "r1" || app == "r2" || app == "p1") then none else
+        if !(app == "e" || app.startsWith "x" || app == "r1" || app == "r2" || app == "p1" || (app == "q1" && rt == .cosmos)) then none else
         let hash := if vhId == "e" then "e" else s!"H({ver}/{chain}/{height}/{vhId}/{nvhId}/{app})"
         let mk (c : Option Cm) : Hdr := ⟨ver, chain, height, vhId, nvhId, app, hash, vals, c⟩
         match commit with
@@ -257,13 +258,16 @@ def itemOf (rt : Rt) (j : Nat) : Option (Nat × String × Nat × Bool) :=
   else if j == 2 then some (2, modStore, 53, true)
   else if j == 4 then (if rt == .heimdall then some (1, modStore, 53, true) else none)
   else if j == 5 || j == 6 then some (0, modStore, 129, false)
-  else if j == 7 then (if rt == .okex then some (1, modStore, 53, false) else none)
-  else if j == 8 then (if rt == .okex then some (1, modStore, 9, false) else none)
+  else if j == 7 then (if rt == .okex then some (1, modStore, 53, false) else if rt == .cosmos then some (0, "s", 53, true) else none)
+  else if j == 8 then (if rt == .okex then some (1, modStore, 9, false) else if rt == .cosmos then some (0, "acc", 53, true) else none)
   else if j == 9 then some (1, "acc", 53, true)
   else none
 
 /-- items 5 and 6 are also stored in the private store p1 -/
 def inPrivate (j : Nat) : Bool := j == 5 || j == 6
+
+/-- cosmos items committed in the ICS-23 state q1 -/
+def inIcs (j : Nat) : Bool := j == 0 || j == 1 || j == 3 || j == 7 || j == 8 || j == 9
 
 structure DepIn where
   proof : Option Pf
@@ -285,17 +289,18 @@ def parsePf (rt : Rt) (s : String) : Option DepIn :=
           if c != 'e' && c != 'a' then none else
           let body := String.ofList rest
           let priv := (body.splitOn "p").length == 2 && (body.splitOn "r").length == 1
-          match (if priv then body.splitOn "p" else body.splitOn "r") with
+          let ics := (body.splitOn "q").length == 2 && (body.splitOn "r").length == 1 && !priv
+          match (if priv then body.splitOn "p" else if ics then body.splitOn "q" else body.splitOn "r") with
           | [j, k] =>
             if src.length < 4 then none else
             match j.toNat?, k.toNat? with
             | some j, some k =>
-              if k < 1 || k > 2 || j > 9 || (priv && (k != 1 || c != 'e')) then none else
+              if k < 1 || k > 2 || j > 9 || (priv && (k != 1 || c != 'e')) || (ics && (k != 1 || rt != .cosmos)) then none else
               match itemOf rt j with
               | none => none
               | some (since, _, _, _) =>
-                let present := if priv then inPrivate j else since != 0 && since ≤ k
-                if (c == 'e') != present then none else some (some ⟨c, j, k, priv⟩)
+                let present := if priv then inPrivate j else if ics then inIcs j else since != 0 && since ≤ k
+                if (c == 'e') != present then none else some (some ⟨c, j, k, priv, ics⟩)
             | _, _ => none
           | _ => none
         | [] => none
@@ -319,7 +324,7 @@ def keccakId (s : String) : String := "K(" ++ s ++ ")"
 /-- ideal proof runtime: an existence proof verifies exactly its item, under exactly the root of its version -/
 def proofRt (rt : Rt) : ProofRt String Pf String String where
   verifyValue := fun p root kp value =>
-    p.kind == 'e' && root == (if p.priv then "p1" else s!"r{p.ver}") &&
+    p.kind == 'e' && root == (if p.priv then "p1" else if p.ics then "q1" else s!"r{p.ver}") &&
       kp == (if p.priv then s!"pk{p.item}" else s!"k{p.item}") &&
       value == (if rt == .okex then keccakId s!"v{p.item}" else s!"v{p.item}")
   verifyAbsence := fun p root path => p.kind == 'a' && root == s!"r{p.ver}" && path == s!"k{p.item}"
